@@ -961,8 +961,8 @@ func signedAlter(x *mon.Ctx) {
 		}
 		s := genSigned(c.R, i, lens)
 		for _, g := range s.signers { // P-384 verification is slow: keep those sweeps short
-			if g.kind == kP384 && s.n > 100 {
-				s.n = 100
+			if g.kind == kP384 && s.n > 33 {
+				s.n = 33
 			}
 		}
 		c.Class("alt/%s/%s", classOfSigned(s), lenClass(s.n))
